@@ -262,6 +262,32 @@ def exec_ops(prop, ops, race=False, timeout=1500):
             sig = "data-race"
         if "fatal error: all goroutines are asleep" in tail:
             sig = "deadlock"
+        if sig == "process-crash" and not any(m in full for m in ("panic", "fatal error", "goroutine ", "SIG", "exit status")):
+            # the process vanished without any diagnostic (killed from outside: memory pressure, a stray signal). That says
+            # nothing about zap: the op is re-executed alone, and only a reproducible death is reported.
+            redo = None
+            for _ in range(3):
+                try:
+                    q = subprocess.run([binary, "exec", prop], input=(crashed + "\n").encode(), capture_output=True,
+                                       timeout=timeout, env=ENV)
+                except subprocess.TimeoutExpired:
+                    continue
+                ql = [l for l in q.stdout.decode(errors="replace").split("\n") if l.strip()]
+                if q.returncode == 0 and len(ql) == 1:
+                    try:
+                        redo = json.loads(ql[0])
+                        break
+                    except Exception:
+                        pass
+                elif q.stderr.strip():
+                    tail = q.stderr.decode(errors="replace")[-3000:]
+                    break
+            if redo is not None:
+                log("%s: the harness process died without a diagnostic at op %d; the op alone completes normally (transient, not reported)"
+                    % (prop, len(results)))
+                results.append(redo)
+                todo = todo[len(got) + 1:]
+                continue
         results.append({"op": json.loads(crashed), "impl": {"crash": sig},
                         "oracle": {"ok": False, "sig": "%s:%s" % (prop, sig), "detail": tail},
                         "nontrivial": True, "shape": "crash"})
